@@ -399,7 +399,21 @@ pub fn run_c15(ctx: &mut Ctx) {
             _ => &bs[2],
         };
         let len = if matches!(b, Backend::Cadical) { rng.range(5, 60) } else { rng.range(4, 16) };
-        let ops = gen_sat_history(&mut rng, len);
+        let ops = if !matches!(b, Backend::Cadical) && rng.pct(3) {
+            // an instance whose DIMACS text is larger than a pipe buffer (64 KiB): an implication chain
+            // of 5 200-7 000 variables, decided by propagation under the assumptions used here
+            let n = rng.range(5_200, 7_000) as isize;
+            let mut ops: Vec<SOp> = (1..n).map(|i| SOp::Add(vec![-i, i + 1])).collect();
+            ops.push(SOp::Solve(vec![1]));
+            ops.push(SOp::Solve(vec![1, -n]));
+            ops.push(SOp::Solve(vec![-n]));
+            ops.push(SOp::Add(vec![1]));
+            ops.push(SOp::Solve(vec![]));
+            ctx.count("histories/instance-text-above-64KiB");
+            ops
+        } else {
+            gen_sat_history(&mut rng, len)
+        };
         crate::report::guarded(ctx, |ctx| eval_sat_history(ctx, b, &ops));
         if rng.pct(if matches!(b, Backend::Cadical) { 10 } else { 25 }) {
             let fam = *rng.pick(&["er-small", "union", "lattice"]);
